@@ -388,6 +388,11 @@ class Reshape(ArrayExpr):
 
         new_out_shape = tuple(new_out_shape)
 
+        # Integer indices that consume every input (or output) dimension would
+        # leave a 0-d array on one side of the reshape, which it cannot chunk.
+        if not new_out_shape or sum(isinstance(idx, Integral) for idx in input_index) == in_ndim:
+            return None
+
         # Apply slice to input, then reshape
         sliced_input = new_collection(self.array)[tuple(input_index)]
         result = Reshape(sliced_input.expr, new_out_shape)
